@@ -266,7 +266,7 @@ StepEnter(cfg, o, ln) ==
       earlier == IF pos = 0 THEN {} ELSE {o.acc[ln.b][i] : i \in 1..(pos - 1)}
       w2a == IF first /\ ~jump /\ ln.b \notin o.stopped
              THEN {W("C02.fifo", ln.e, ln.b, ln.h, ln.act, ln.byk) : e2 \in
-                     {z \in earlier : z # ln.e /\ ~InSeq(z, o.started[ln.b]) /\ Puppets(cfg, ln.b, o.ety[z]) # {}
+                     {z \in earlier : z # ln.e /\ ~InSeq(z, o.started[ln.b]) /\ <<ln.b, z>> \notin o.procB /\ Puppets(cfg, ln.b, o.ety[z]) # {}
                                       /\ ~\E i \in DOMAIN o.snap[z].res : o.snap[z].res[i].b = ln.b /\ CancelledByTimeout(o, z, i)}}
              ELSE {}
       w2n == IF pos = 0 THEN {W("C14.not_accepted", ln.e, ln.b, ln.h, ln.act, "handler entered for an event never accepted on this bus")} ELSE {}
@@ -382,7 +382,8 @@ StepStopE(cfg, o, ln) ==
              \cup (IF ln.exc # "" THEN {W("C16.raised", 0, ln.b, "", 0, ln.exc)} ELSE {})
   IN AddW(o1, w)
 
-StepCancelRL(cfg, o, ln) == [o EXCEPT !.crl = @ \cup {ln.b}, !.stopped = @ \cup {ln.b},
+StepCancelRL(cfg, o, ln) == IF ~ln.had THEN o ELSE      \* nothing to cancel: the bus has no background task
+                            [o EXCEPT !.crl = @ \cup {ln.b}, !.stopped = @ \cup {ln.b},
                                       !.stopAcc[ln.b] = IF ln.b \in o.stopped THEN @ ELSE Len(o.acc[ln.b])]
 
 \* ------------------------------------------------------------------------
